@@ -1053,6 +1053,8 @@ GEN_SRC.update({n: gen_src(n) for n in ("SrcSbRankOrd",)})
 EXTRACTORS["C17"] = EXTRACTORS["C17"] + [GEN_SRC["SrcSbRankOrd"]]
 GEN_SRC.update({n: gen_src(n) for n in ("SrcOrfNew",)})
 EXTRACTORS["C20"] = EXTRACTORS["C20"] + [GEN_SRC["SrcOrfNew"]]
+GEN_SRC.update({n: gen_src(n) for n in ("SrcIdxFaIter",)})
+EXTRACTORS["C12"] = EXTRACTORS["C12"] + [GEN_SRC["SrcIdxFaIter"]]
 
 
 def main():
